@@ -155,6 +155,64 @@ def m_from_bytes(little):
     return f
 
 
+def m_overflowing(op):
+    """iN::overflowing_add/sub/mul: (wrapped result, overflowed?) -- exactly the checked MIR operation"""
+    def f(I, st, args, dest_ty, *r):
+        a, b = args
+        if a.kind != "int" or b.kind != "int":
+            return TopV(dest_ty, a.deps() | b.deps())
+        return I.binop(st, op + "O", a, b, f"({a.ty}, bool)")
+    return f
+
+
+def m_checked(op):
+    """iN::checked_add/sub/mul: Some(result) unless the exact result does not fit"""
+    def f(I, st, args, dest_ty, *r):
+        a, b = args
+        if a.kind != "int" or b.kind != "int":
+            return TopV(dest_ty, a.deps() | b.deps())
+        t = I.binop(st, op + "O", a, b, f"({a.ty}, bool)")
+        res, flag = t.fields
+        d = a.deps() | b.deps()
+        if flag.kind == "int" and flag.is_const():
+            return EnumV("Option", 0, (), 2, d) if flag.lo == 1 else EnumV("Option", 1, (res,), 2, d)
+        return EnumV("Option", None, (), 2, d, {0: (), 1: (res,)})
+    return f
+
+
+def m_saturating(op):
+    def f(I, st, args, dest_ty, *r):
+        a, b = args
+        if a.kind != "int" or b.kind != "int":
+            return TopV(dest_ty, a.deps() | b.deps())
+        t = I.binop(st, op + "O", a, b, f"({a.ty}, bool)")
+        res, flag = t.fields
+        if flag.kind == "int" and flag.is_const() and flag.lo == 0:
+            return res
+        lo, hi = M.type_range(a.ty)
+        d = a.deps() | b.deps()
+        if op == "Sub":
+            return IntV.top(a.ty, d, max(lo, a.lo - b.hi), max(lo, a.hi - b.lo))
+        return IntV.top(a.ty, d, min(hi, a.lo + b.lo), min(hi, a.hi + b.hi))
+    return f
+
+
+def m_try_from(I, st, args, dest_ty, *r):
+    """TryFrom between integer types: Ok(value) iff it fits the target"""
+    a = args[0]
+    ok, err = _result_inner(dest_ty)
+    d = a.deps()
+    if a.kind != "int" or not M.int_type(ok):
+        return EnumV("Result", None, (), 2, d, {0: (TopV(ok, d),), 1: (TopV(err, d),)})
+    lo, hi = M.type_range(ok)
+    if a.lo >= lo and a.hi <= hi:
+        return EnumV("Result", 0, (I.cast_int(a, ok),), 2, d)
+    if a.hi < lo or a.lo > hi:
+        return EnumV("Result", 1, (TopV(err, d),), 2, d)
+    inside = IntV.top(ok, d, max(lo, a.lo), min(hi, a.hi), exact=a.exact)
+    return EnumV("Result", None, (), 2, d, {0: (inside,), 1: (TopV(err, d),)})
+
+
 def m_into(I, st, args, dest_ty, *r):
     a = args[0]
     if a.kind == "int" and M.int_type(dest_ty):
@@ -732,6 +790,16 @@ MODELS = [(re.compile(p), f) for p, f in [
     (r"num::<impl [iu](8|16|32|64|128|size)>::to_be_bytes$", m_to_bytes(False)),
     (r"num::<impl [iu](8|16|32|64|128|size)>::from_le_bytes$", m_from_bytes(True)),
     (r"num::<impl [iu](8|16|32|64|128|size)>::from_be_bytes$", m_from_bytes(False)),
+    (r"num::<impl [iu]\w+>::overflowing_add$", m_overflowing("Add")),
+    (r"num::<impl [iu]\w+>::overflowing_sub$", m_overflowing("Sub")),
+    (r"num::<impl [iu]\w+>::overflowing_mul$", m_overflowing("Mul")),
+    (r"num::<impl [iu]\w+>::checked_add$", m_checked("Add")),
+    (r"num::<impl [iu]\w+>::checked_sub$", m_checked("Sub")),
+    (r"num::<impl [iu]\w+>::checked_mul$", m_checked("Mul")),
+    (r"num::<impl [iu]\w+>::saturating_sub$", m_saturating("Sub")),
+    (r"num::<impl [iu]\w+>::saturating_add$", m_saturating("Add")),
+    (r"::wrapping_mul$", m_wrapping("Mul")),
+    (r"convert::TryFrom<.*>>::try_from$|convert::TryInto<.*>>::try_into$|num::<impl (std::|core::)?convert::TryFrom<[iu]\w+> for [iu]\w+>::try_from$", m_try_from),
     (r"::wrapping_add$", m_wrapping("Add")),
     (r"::wrapping_sub$", m_wrapping("Sub")),
     (r"convert::Into::into$|convert::From::from$", m_into),
